@@ -10,6 +10,7 @@ import engine
 import rules_txn  # noqa: F401  (registers rules)
 import rules_codec  # noqa: F401
 import rules_misc  # noqa: F401
+import rules_wiring  # noqa: F401
 from props import PROPS
 
 
